@@ -545,7 +545,7 @@ pub fn run(args: &Args) -> i32 {
             break;
         }
         let mut rng = Rng::new(args.case_seed(c));
-        history(&mut rng, &mut rep, c, 80);
+        guard_case(&mut rep, c, |rep| history(&mut rng, rep, c, 80));
     }
     rep.finish();
     0
